@@ -29,6 +29,7 @@ def run(ck, prog, ctx):
     ck.rule("COVER", "decision coverage: discriminants depend on every compared attribute of both sides (DESIGN 3.13 c)")
     pv = Prov(prog)
     pvn = Prov(prog, inline=False, bind_closures=False)
+    pvb = Prov(prog, inline=False)
     n_acc = 0
     for ent, lookup in sorted(LOOKUPS.items()):
         for mode in ("added", "removed", "changed"):
@@ -43,6 +44,9 @@ def run(ck, prog, ctx):
             # iteration receiver: the adaptor consuming the closure
             adapt = [(bi, t) for bi, t in b.calls() if t.callee.trait == "std::iter::Iterator" and t.callee.method in ("filter", "filter_map", "map", "flat_map", "find")]
             loops = [(bi, t) for bi, t in b.calls() if t.callee.trait == "std::iter::Iterator" and t.callee.method == "next"]
+            # the source of the pipeline: adaptors fed by another adaptor of the same chain see derived items (pairs of both sides)
+            chained = {t.dest.local for bi, t in adapt if t.dest is not None and t.dest.is_local()}
+            adapt = [(bi, t) for bi, t in adapt if not (t.args and t.args[0].place is not None and t.args[0].place.is_local() and t.args[0].place.local in chained)] or adapt
             recvs = [pv.of_operand(b, t.args[0]) for bi, t in adapt] or [pv.of_operand(b, t.args[0]) for bi, t in loops]
             if not recvs:
                 ck.undecided("ROLE", name + "/iterates", "iteration not recognised", where=b.where())
@@ -60,23 +64,43 @@ def run(ck, prog, ctx):
                 ck.ob("ROLE", name + "/looks-up", s_lk == {lk_side}, "%s looks the item up in %s (expected %s)" % (name, sorted(s_lk), lk_side), where=fb.where(t.line))
                 if mode != "changed":
                     pol, _ = bool_polarity(fb, pvn, lambda c: c.method in ("is_none", "is_some") and (c.impl_self or "").startswith("std::option::Option"))
-                    if pol is None:
+                    ts = [(x, y) for x, y in fb.calls() if y.callee.method in ("then_some", "then") and "bool" in (y.callee.name or "") + (y.callee.def_args or "") and y.args]
+                    if pol is None and len(ts) == 1 and fb.kind == "Closure":
+                        # `filter_map(|x| other.get(x).is_none().then_some(x))`: the item is kept iff the flag is true
+                        fl = pvn.of_operand(fb, ts[0][1].args[0])
+                        tests = {a[1].rsplit("::", 1)[-1] for a in fl if a[0] == "call" and a[1].rsplit("::", 1)[-1] in ("is_none", "is_some")}
+                        nots = len([a for a in fl if a[0] == "op" and a[1] == "Not"])
+                        returned = any(a[0] == "call" and a[3] == fb.id and a[4] == ts[0][0] for a in pvn.of_local(fb, 0))
+                        if len(tests) == 1 and returned and nots <= 1:
+                            keeps_absent = (tests == {"is_none"}) == (nots == 0)
+                            ck.ob("ROLE", name + "/keeps", keeps_absent, "%s keeps an item iff it is %s in the other ontology" % (name, "absent" if keeps_absent else "PRESENT"), where=fb.where(t.line))
+                        else:
+                            ck.undecided("ROLE", name + "/keeps", "predicate is not a plain is_none()/is_some()", where=fb.where(t.line))
+                    elif pol is None:
                         ck.undecided("ROLE", name + "/keeps", "predicate is not a plain is_none()/is_some()", where=fb.where(t.line))
                     else:
                         m = _.callee.method
                         keeps_absent = (m == "is_none") == (pol == 1)
                         ck.ob("ROLE", name + "/keeps", keeps_absent, "%s keeps an item iff it is %s in the other ontology" % (name, "absent" if keeps_absent else "PRESENT"), where=fb.where(t.line))
                 else:
-                    ctors = [(x, y) for x, y in fb.calls() if (y.callee.res or "").startswith("ontology::comparison::") and re.search(r"(HpoTermDelta::new|AnnotationDelta::(gene|disease))$", y.callee.res or "")]
+                    ctors = [(fb, x, y) for x, y in fb.calls() if (y.callee.res or "").startswith("ontology::comparison::") and re.search(r"(HpoTermDelta::new|AnnotationDelta::(gene|disease))$", y.callee.res or "")]
+                    if not ctors:
+                        # the constructor sits in another closure of the same function (`.and_then(|new| Delta::new(old, new))`, a second adaptor)
+                        ctors = [(fb2, x, y) for fb2 in fam for x, y in fb2.calls() if (y.callee.res or "").startswith("ontology::comparison::") and re.search(r"(HpoTermDelta::new|AnnotationDelta::(gene|disease))$", y.callee.res or "")]
                     if not ctors:
                         ck.undecided("ROLE", name + "/delta", "delta constructor not found", where=fb.where())
-                    for x, y in ctors:
-                        a0 = pvn.of_operand(fb, y.args[0])
-                        a1 = pvn.of_operand(fb, y.args[1])
-                        item0 = 2 in params_of(a0, fb.id) and not any(a[0] == "call" and a[1] == lookup for a in a0)
+                    for cfb, x, y in ctors:
+                        pvx = pvn if cfb is fb else pvb  # across closures the parameters have to be bound to what the adaptor hands them
+                        a0 = pvx.of_operand(cfb, y.args[0])
+                        a1 = pvx.of_operand(cfb, y.args[1])
+                        if cfb is not fb and all(any(a[0] == "call" and a[1] == lookup for a in ax) and sides(ax) == {"lhs", "rhs"} for ax in (a0, a1)):
+                            ck.undecided("ROLE", name + "/delta", "the delta is built in a later stage of the pipeline from a pair whose components the provenance cannot tell apart", where=cfb.where(y.line))
+                            continue
+                        # the first argument is the iterated item: the closure's element parameter, or (explicit loop / nested closure) a value from the iterated side only
+                        item0 = ((cfb is fb and 2 in params_of(a0, fb.id)) or sides(pv.of_operand(cfb, y.args[0])) == {it_side}) and not any(a[0] == "call" and a[1] == lookup for a in a0)
                         found1 = any(a[0] == "call" and a[1] == lookup for a in a1) and 2 not in {p for p in params_of(a1, fb.id) if not any(a[0] == "call" and a[1] == lookup for a in a1)}
                         ok = item0 and any(a[0] == "call" and a[1] == lookup for a in a1)
-                        ck.ob("ROLE", name + "/delta", ok, "%s builds the delta from %s" % (name, "(iterated old item, looked-up new item)" if ok else "arguments in another order than (old, new)"), where=fb.where(y.line))
+                        ck.ob("ROLE", name + "/delta", ok, "%s builds the delta from %s" % (name, "(iterated old item, looked-up new item)" if ok else "arguments in another order than (old, new)"), where=cfb.where(y.line))
             if ent in KIND:
                 els = []
                 for fb in fam:
